@@ -32,6 +32,12 @@ def jobs(ts, seed):
     k = rng.randint(2, min(4, n))
     cuts = sorted(rng.sample(range(1, n), k - 1))
     sets = [perm[a:b] for a, b in zip([0] + cuts, cuts + [n])]
+    # a second, different partition: concurrent calls with different arguments would expose shared scratch state
+    perm2 = list(samples)
+    rng.shuffle(perm2)
+    k2 = rng.randint(2, min(5, n))
+    cuts2 = sorted(rng.sample(range(1, n), k2 - 1))
+    sets2 = [perm2[a:b] for a, b in zip([0] + cuts2, cuts2 + [n])]
     focal = rng.sample(range(ts.num_nodes), min(ts.num_nodes, 12))
     bps = [float(x) for x in ts.breakpoints()]
     inner = [x for x in bps[1:-1]]
@@ -41,6 +47,9 @@ def jobs(ts, seed):
         out.append(("genealogical_nearest_neighbours", f"num_threads={nt}",
                     lambda nt=nt: ts.genealogical_nearest_neighbours(focal, sets, num_threads=nt)))
     out.append(("mean_descendants", "", lambda: ts.mean_descendants(sets)))
+    out.append(("mean_descendants", "sets2", lambda: ts.mean_descendants(sets2)))
+    out.append(("genealogical_nearest_neighbours", "sets2",
+                lambda: ts.genealogical_nearest_neighbours(focal[::-1], sets2)))
     for centre in (True, False):
         for w in (None, wins):
             out.append(("genetic_relatedness_vector", f"centre={centre},windows={'list' if w else None}",
@@ -49,9 +58,10 @@ def jobs(ts, seed):
     for mode in ("site", "branch"):
         for nt in (0, 2, 3, 7):
             for w in (None, wins):
+                ss = sets if nt in (0, 3) else sets2
                 out.append(("divergence_matrix", f"mode={mode},num_threads={nt},windows={'list' if w else None}",
-                            lambda mode=mode, nt=nt, w=w: ts.divergence_matrix(
-                                sets, windows=w, mode=mode, num_threads=nt, span_normalise=True)))
+                            lambda mode=mode, nt=nt, w=w, ss=ss: ts.divergence_matrix(
+                                ss, windows=w, mode=mode, num_threads=nt, span_normalise=True)))
     out.append(("genetic_relatedness_matrix", "num_threads=2",
                 lambda: ts.genetic_relatedness_matrix(sets, mode="branch", num_threads=2)))
     if ts.num_sites >= 2:
